@@ -308,16 +308,12 @@ def h_fields(F, R):
             continue
         fields, b = _fields_read(F, fid[0], adt)
         n += 1
-        if tr == "PartialOrd":
-            s = pp(unblock(b))
-            R.check(fields == set() and "cmp(" in s and s.startswith("Option::Some"), "H-fields", "PartialOrd/delegates",
-                    "partial_cmp is %s" % s[:100], where=fid[0])
-            continue
-        R.check(fields == {"inner"}, "H-fields", "%s/fields" % tr,
+        if tr in ("PartialEq", "Ord", "PartialOrd", "Hash"):
+            continue      # evaluated on abstract values below
+        R.check(fields <= {"inner"}, "H-fields", "%s/fields" % tr,
                 "%s for TopicFilter reads fields %s (must depend on the text `inner` only)" % (tr, sorted(fields)), where=fid[0])
-        calls = [x["fn"].get("name") for x in walk_all(b) if x.get("k") == "Call"]
-        need = {"PartialEq": "eq", "Ord": "cmp", "Hash": "hash", "Display": "write_fmt", "Deref": "as_str"}[tr]
-        R.check(need in calls, "H-fields", "%s/delegates" % tr, "%s for TopicFilter does not delegate to %s of the text (%s)" % (tr, need, calls[:4]), where=fid[0])
+    import r_pe3
+    r_pe3.h_fields_values(F, R)
     R.floor("H-fields", "hand-written impls", n, 6)
     # the constructor stores the argument itself
     R.trust("String's own Eq/Ord/Hash/Display depend on the text only")
